@@ -60,6 +60,14 @@ namespace AState
 @[simp] theorem fail_phase (s : AState) : s.fail.phase = .done false := rfl
 @[simp] theorem finish_phase (s : AState) : s.finish.phase = .done true := rfl
 
+theorem retEffect_phase (s : AState) (r : OpRec) : (s.retEffect r).phase = s.phase := by
+  unfold retEffect; simp only; split <;> split <;> split <;> rfl
+theorem retEffect_log (s : AState) (r : OpRec) : (s.retEffect r).log = s.log := by
+  unfold retEffect; simp only; split <;> split <;> split <;> rfl
+theorem retEffect_result (s : AState) (r : OpRec) :
+    (s.retEffect r).result = (if r.st = .joining then none else s.result) := by
+  unfold retEffect; simp only; split <;> split <;> split <;> simp_all [removeOp, removeHandle]
+
 @[simp] theorem push_chan (s : AState) (pl path tok) :
     (s.push pl path tok).chan = s.chan.enq { pl, tok := (if path = .waiting then tok else .stale) } := rfl
 @[simp] theorem push_ops (s : AState) (pl path tok) : (s.push pl path tok).ops = s.ops := rfl
